@@ -2048,6 +2048,30 @@ func (m *repoManager) invalidateAncestors(kvv kvVersions, v dvid.VersionID) erro
 	return nil
 }
 
+// invalidateSuperseded marks as invalid every k/v in v's ancestry that has a more recent k/v between
+// it and v, visiting each version once.
+func (m *repoManager) invalidateSuperseded(kvv kvVersions, v dvid.VersionID, visited map[dvid.VersionID]struct{}) error {
+	if _, found := visited[v]; found {
+		return nil
+	}
+	visited[v] = struct{}{}
+	if _, found := kvv[v]; found {
+		if err := m.invalidateAncestors(kvv, v); err != nil {
+			return err
+		}
+	}
+	parents, err := m.getParentsByVersion(v)
+	if err != nil {
+		return err
+	}
+	for _, parent := range parents {
+		if err := m.invalidateSuperseded(kvv, parent, visited); err != nil {
+			return err
+		}
+	}
+	return nil
+}
+
 // generate ancestor path from current version to root.
 func (m *repoManager) getAncestry(v dvid.VersionID) ([]dvid.VersionID, error) {
 	ancestors := []dvid.VersionID{v}
@@ -2097,6 +2121,14 @@ func (m *repoManager) findMatch(kvv kvVersions, v dvid.VersionID) (*storage.KeyV
 		return m.findMatch(kvv, parents[0])
 	default:
 		// We have multiple parents so this is a merge.  Traverse each path up.
+		// First let every lineage invalidate what it supersedes, so the outcome does not depend on the
+		// order of parents or on a conflict within one parent that another parent's lineage resolved.
+		visited := make(map[dvid.VersionID]struct{})
+		for _, parent := range parents {
+			if err := m.invalidateSuperseded(kvv, parent, visited); err != nil {
+				return nil, parent, err
+			}
+		}
 		var foundKV *storage.KeyValue
 		var foundV dvid.VersionID
 		foundVs := make(map[dvid.VersionID]struct{})
